@@ -206,9 +206,10 @@ def xmmMov (f : Frame) : XMn :=
 def xInfo (f : Frame) (g : Nat) : XMn :=
   if g = 1 then xmmMov f else if g = 2 then .kmovq else .movq
 
-/-- slots of one group: consecutive from `base` (`x_base.add_offset_lo32(x_size)` after every register) -/
-def groupSlots (mn : XMn) (ids : List Nat) (base : Nat) : List (XMn × Nat × Nat) :=
-  ids.zipIdx.map fun (id, i) => (mn, id, u32 (base + i * mn.size))
+/-- slots of one group: consecutive from `off` (`x_base.add_offset_lo32(x_size)` after every register) -/
+def groupSlots (mn : XMn) : List Nat → Nat → List (XMn × Nat × Nat)
+  | [], _ => []
+  | id :: ids, off => (mn, id, u32 off) :: groupSlots mn ids (off + mn.size)
 
 /-- the non-GP save slots in emission order: (instruction, register id, offset from `sp`) -/
 def xSlots (f : Frame) : List (XMn × Nat × Nat) :=
